@@ -240,8 +240,9 @@ def create_redist_dict(
     if allocated < group_resource:
       extra = group_resource - allocated
       for (key, _) in sorted_scores:
-        realloc[key] = min(realloc[key] + 1, dim)
-        extra = extra - 1 if realloc[key] + 1 < dim else extra
+        if realloc[key] < dim:
+          realloc[key] += 1
+          extra -= 1
         if extra <= 0:
           break
 
